@@ -18,7 +18,9 @@ AttrsOf(t) == IF t = "t1" THEN {"a", "n"} ELSE IF t = "t2" THEN {"b"} \cup T2Ext
 \* (t2 has a relationship "o" as well: the same name as t1's, on another type)
 RelsOf(t)  == IF t = "t1" THEN {"o", "m", "o2", "m2"} ELSE IF t = "t2" THEN {"p", "o"} ELSE {}
 ToOne(t, f) == f \in {"o", "o2", "p"}
-Target(t, f) == IF t = "t1" THEN "t2" ELSE "t1"
+\* (t1.m2 leads to t1 itself: one resource has relationships to two types, and the same id under m and
+\* under m2 names two different resources)
+Target(t, f) == IF t = "t1" /\ f # "m2" THEN "t2" ELSE "t1"
 
 AsSet(q) == {q[i] : i \in 1..Len(q)}
 Sel(doc, t)  == IF t \in DOMAIN doc.fields THEN AsSet(doc.fields[t]) ELSE {}
